@@ -41,3 +41,19 @@ claim("C16",
        "Atoi(ValueByTag(offending bytes, MsgSeqNum tag)) and names that tag when the lookup or the conversion fails. Does not decide that later valid messages are processed normally beyond absence of state change/cancel.",
   note="Trusted: go/ssa, event classification, canonical rendering of operands; which inputs make Unmarshal fail is C03's subject.",
   design_ref="DESIGN.md §3 C16")
+
+claim("C10",
+  technique="static operand-flow and path-condition analysis over go/ssa (resend handler, save handler, gap check), loop-shape check of the store's range lookup",
+  text="Structural necessary conditions for every outbound history and every requested range: messages are saved under their own MsgSeqNum by the first outgoing handler; the resend handler passes the parsed BeginSeqNo/EndSeqNo "
+       "(EndSeqNo = 0 ⇒ the outgoing counter's current value) to the store's outgoing side and hands the returned list unmodified to SendBatch without taking a number or re-stamping a header; the in-memory store returns "
+       "exactly messages[from..to] ascending or an error, never a partial list; a gap at logon is requested from last-received+1 with EndSeqNo 0. Byte identity of retransmitted messages beyond 'same stored object, no mutation on the path' is not decided.",
+  note="Trusted: go/ssa; canonical rendering of operands; the store is the bundled memory.Storage (a custom store is the application's).",
+  design_ref="DESIGN.md §3 C10")
+
+claim("C19",
+  technique="static dominance / path-condition analysis over go/ssa of the send and dispatch paths; loop-shape checks of the handler pools; constructor trace (first registered outgoing handler)",
+  text="For every set of handlers and every refusal/store-failure pattern: the enqueue in DefaultHandler.send is reached only through the pass edges of the all-types range, the type range and ToBytes, in that order, with the bytes ToBytes returned; "
+       "each fail edge returns a non-nil error that Send/SendBatch/Session.send/Session.Send propagate; pools append, snapshot in order, iterate ascending and stop at the first refusal; the session's save handler is the first all-types outgoing handler and is "
+       "registered before the constructor returns; inbound dispatch offers each message to the all-types handlers and then to the handlers of its extracted type. What a handler does with the message is the application's.",
+  note="Trusted: go/ssa; canonical rendering; map/append semantics of Go.",
+  design_ref="DESIGN.md §3 C19")
